@@ -44,15 +44,23 @@ def _progkey(prog):
     return prog.get("path") or hashlib.sha1(prog["src"].encode()).hexdigest()[:12]
 
 
-def _shrink(lines, klass, seeds, status_diff, timeout):
+def alt_modes(mode):
+    """Modes tried while shrinking: the failing one, then other seeds of the same family."""
+    fam = cs.mode_family(mode)
+    if fam in ("perm", "random"):
+        return [mode] + ["%s:%d" % (fam, k) for k in range(1, 7)]
+    return [mode]
+
+
+def _shrink(lines, klass, pair, modes, status_diff, timeout, judge):
     def bad(c):
         prog = {"src": "\n".join(c)}
-        rs = cs.run_many((prog, ["default"] + ["perm:%d" % k for k in seeds], timeout, status_diff))
+        rs = cs.run_many((prog, ["default"] + modes, timeout, status_diff))
         if len(rs) < 2:
             return False
         for r in rs[1:]:
-            v, k, _ = cs.judge(prog, rs[0], r, c)
-            if v == "violation" and k == klass:
+            v, k, _ = judge(prog, rs[0], r, c)
+            if v == "violation" and k == klass and (rs[0]["err"], r["err"]) == pair:
                 return True
         return False
     if not bad(lines):
@@ -62,12 +70,12 @@ def _shrink(lines, klass, seeds, status_diff, timeout):
     return small, True
 
 
-def _witness_seed(lines, klass, seeds, timeout):
+def _witness_seed(lines, klass, pair, modes, timeout, judge):
     prog = {"src": "\n".join(lines)}
-    rs = cs.run_many((prog, ["default"] + ["perm:%d" % k for k in seeds], timeout))
+    rs = cs.run_many((prog, ["default"] + modes, timeout))
     for r in rs[1:]:
-        v, k, d = cs.judge(prog, rs[0], r, lines)
-        if v == "violation" and k == klass:
+        v, k, d = judge(prog, rs[0], r, lines)
+        if v == "violation" and k == klass and (rs[0]["err"], r["err"]) == pair:
             return rs[0], r, d
     return None
 
@@ -77,7 +85,8 @@ def _brief(r):
             "answers": {k: round(v, 12) for k, v in sorted(r["exact"].items())[:40]}}
 
 
-def process(ctx, items, labels, source, totals, shrink_budget):
+def process(ctx, items, labels, source, totals, shrink_budget, judge=None, word="schedule"):
+    judge = judge or cs.judge
     results = pl.pmap(cs.run_many, items, jobs=ctx.jobs, chunksize=1)
     for (prog, modes, timeout), label, rs in zip(items, labels, results):
         base = rs[0]
@@ -91,9 +100,9 @@ def process(ctx, items, labels, source, totals, shrink_budget):
             st = r["stats"] or {}
             for k in ("batches", "all_e", "permuted"):
                 totals[k] += st.get(k, 0)
-            nontrivial = st.get("permuted", 0) > 0
-            v, klass, d = cs.judge(prog, base, r, lines)
-            ctx.count("%s %s" % (source, v))
+            nontrivial = st.get("permuted", 0) > 0 or cs.mode_family(r["mode"]) != "perm"
+            v, klass, d = judge(prog, base, r, lines)
+            ctx.count("%s %s %s" % (source, cs.mode_family(r["mode"]), v))
             if v == "timeout":
                 totals["timeouts"].append("%s %s" % (label, r["mode"]))
                 continue
@@ -108,24 +117,132 @@ def process(ctx, items, labels, source, totals, shrink_budget):
             ctx.count("class %s" % klass)
             rep = {"program": label, "mode": r["mode"], "difference": d, "baseline": _brief(base), "observed": _brief(r),
                    "hook_counters": st, "sched_path": totals["path"]}
-            what = "schedule-dependent result on %s under %s: %s" % (label, r["mode"], d)
+            what = "%s-dependent result on %s under %s: %s" % (word, label, r["mode"], d)
             if lines is not None:
                 rep["src"] = prog["src"]
                 seen = totals["shrunk"].setdefault(klass, 0)
                 if seen < shrink_budget:
                     totals["shrunk"][klass] = seen + 1
                     status_diff = base["status"] != r["status"] or base["status"] == "err"
-                    seeds = [int(r["mode"].split(":")[1])] + list(range(1, 7))
-                    small, ok = _shrink(lines, klass, seeds, status_diff, timeout)
+                    modes_ = alt_modes(r["mode"])
+                    pair = (base["err"], r["err"])
+                    small, ok = _shrink(lines, klass, pair, modes_, status_diff, timeout, judge)
                     if ok:
-                        w = _witness_seed(small, klass, seeds, timeout)
+                        w = _witness_seed(small, klass, pair, modes_, timeout, judge)
                         if w:
                             rep.update({"src": "\n".join(small), "mode": w[1]["mode"], "baseline": _brief(w[0]),
                                         "observed": _brief(w[1]), "difference": w[2], "shrunk_from": prog["src"]})
-                            what = "schedule-dependent result under %s: %s on program: %s" % (w[1]["mode"], w[2], " ".join(small))
+                            what = "%s-dependent result under %s: %s on program: %s" % (word, w[1]["mode"], w[2], " ".join(small))
             else:
                 rep["path"] = prog["path"]
             ctx.violation(what, rep, klass=klass)
+
+
+
+# ------------------------------------------------------------------ model vs implementation
+TIE_HEADER = """From Coq Require Import List Arith Bool QArith.
+From PL.C03 Require Import ModelTabling ModelTie.
+Import ListNotations.
+Local Close Scope Q_scope.
+Local Open Scope nat_scope.
+"""
+
+
+def gen_prop(rng):
+    """Structured stratified propositional program over independent facts.
+    atoms: facts 0..nf-1, derived nf..nf+nt-1.  Returns dict with text and structure."""
+    nf = rng.randint(2, 5)
+    nt = rng.randint(2, 6)
+    probs = [rng.choice([(1, 10), (1, 5), (3, 10), (2, 5), (1, 2), (3, 5), (7, 10), (4, 5), (9, 10), (1, 4)]) for _ in range(nf)]
+    strat = sorted(rng.randint(0, 2) for _ in range(nt))
+    clauses = []
+    for i in range(nt):
+        for _ in range(rng.choice([1, 2, 2, 3])):
+            body = []
+            for _ in range(rng.choice([1, 2, 2, 3])):
+                r = rng.random()
+                if r < 0.45:
+                    lit = (rng.random() >= 0.25, rng.randrange(nf))
+                elif r < 0.85:
+                    lit = (True, nf + rng.choice([j for j in range(nt) if strat[j] <= strat[i]]))
+                else:
+                    lower = [j for j in range(nt) if strat[j] < strat[i]]
+                    lit = (False, nf + rng.choice(lower)) if lower else (True, rng.randrange(nf))
+                if lit not in body and (not lit[0], lit[1]) not in body:
+                    body.append(lit)
+            clauses.append((nf + i, body))
+    queries = sorted(rng.sample(range(nf, nf + nt), rng.choice([1, 2, min(3, nt)])))
+
+    def name(a):
+        return "f%d" % a if a < nf else "t%d" % (a - nf)
+    lines = ["%s::%s." % (p[0] / p[1], name(i)) for i, p in enumerate(probs)]
+    for h, body in clauses:
+        lines.append("%s :- %s." % (name(h), ", ".join(("" if pos else "\\+") + name(a) for pos, a in body)))
+    lines += ["query(%s)." % name(q) for q in queries]
+    return {"nf": nf, "nt": nt, "probs": probs, "clauses": clauses, "queries": queries, "src": "\n".join(lines),
+            "names": {name(a): a for a in range(nf + nt)}}
+
+
+def tie_term(g, obs, s1, s2):
+    from fractions import Fraction
+    P = vf.coq_list(["mkClause %d %s" % (h, vf.coq_list([("Pos %d" if pos else "Neg %d") % a for pos, a in body]))
+                     for h, body in g["clauses"]])
+    Q = vf.coq_list([str(q) for q in g["queries"]])
+    U = vf.coq_list([str(a) for a in range(g["nf"] + g["nt"])])
+    fs = vf.coq_list(["(%d, (%d # %d)%%Q)" % (i, p[0], p[1]) for i, p in enumerate(g["probs"])])
+    ob = []
+    for q in g["queries"]:
+        fr = Fraction(obs[q])
+        ob.append("(%d, (%d # %d)%%Q)" % (q, fr.numerator, fr.denominator))
+    n = g["nf"] + g["nt"] + 1
+    return ("tie_case %s %s %s %s %s %d 5 %s %s" % (P, Q, vf.coq_list(map(str, s1)), vf.coq_list(map(str, s2)), U, n, fs,
+                                                      vf.coq_list(ob)),
+            "orders_differ %s %s %s %s" % (P, Q, vf.coq_list(map(str, s1)), vf.coq_list(map(str, s2))))
+
+
+def _tie_worker(g):
+    return cs.run_many(({"src": g["src"]}, ["default"], 20))[0]
+
+
+def run_model_tie(ctx):
+    """Same propositional programs through the Coq machine (two different
+    schedules, well-founded semantics, exact rationals) and through the real
+    default engine; query probabilities must agree to 1e-9."""
+    n = ctx.n(40, 400)
+    gens = [gen_prop(ctx.rng) for _ in range(n)]
+    outs = pl.pmap(_tie_worker, gens, jobs=ctx.jobs, chunksize=2)
+    cases, metas, differ = [], [], []
+    for g, r in zip(gens, outs):
+        if r["status"] != "ok":
+            ctx.count("model-tie skipped: implementation %s" % r["err"])
+            continue
+        obs = {}
+        for q in g["queries"]:
+            nm = [k for k, v in g["names"].items() if v == q][0]
+            obs[q] = r["exact"].get(nm, 0.0)
+        steps = 3 * (g["nf"] + g["nt"] + len(g["clauses"])) + 6
+        s1 = [0] * steps
+        s2 = [ctx.rng.randrange(0, 12) for _ in range(steps)]
+        t, od = tie_term(g, obs, s1, s2)
+        cases.append(t)
+        differ.append(od)
+        metas.append(g["src"])
+        ctx.count("model-tie cases")
+    if not cases:
+        ctx.broken.append("correspondence:C03 model tie has no cases")
+        return
+    try:
+        bad = ctx.coq_failing(TIE_HEADER, cases, name="tie", shard=20, timeout=900)
+        same_order = ctx.coq_failing(TIE_HEADER, differ, name="tieord", shard=100, timeout=900)
+    except RuntimeError as e:
+        ctx.broken.append("correspondence:C03 tabling model does not evaluate")
+        ctx.notes.append(str(e))
+        return
+    ctx.cov["model_tie"] = {"cases": len(cases), "agree": len(cases) - len(bad),
+                            "cases_where_the_two_coq_schedules_discover_in_different_order": len(cases) - len(same_order),
+                            "what": "P(query) from the Coq machine (2 schedules, alternating-fixpoint semantics, exact Q) vs default engine float, tol 1e-9"}
+    for i in bad[:5]:
+        ctx.broken.append("correspondence:C03 machine+well-founded semantics vs default engine on program: %s" % metas[i].replace("\n", " "))
 
 
 def replay(ctx):
@@ -146,7 +263,7 @@ def replay(ctx):
 
 
 def run(ctx):
-    ctx.jobs = 12 if ctx.tier == "thorough" else 8
+    ctx.jobs = 14 if ctx.tier == "thorough" else 10
     path = cs.ensure_sched_hook()
     ctx.cov["sched_path"] = path
     ctx.log("schedule permutation through:", path)
@@ -169,7 +286,7 @@ def run(ctx):
     totals = {"batches": 0, "all_e": 0, "permuted": 0, "nontrivial_runs": 0, "timeouts": [], "shrunk": {}, "path": path}
 
     # ---- corpus
-    nseeds = ctx.n(3, 12)
+    nseeds = ctx.n(2, 12)
     files = cs.corpus_files(vf.REPO, recursive=(ctx.tier == "thorough"))
     items, labels, excluded = [], [], {}
     for f in files:
@@ -186,8 +303,8 @@ def run(ctx):
     ctx.log("corpus done: %d files x %d seeds, permuted batches so far %d" % (len(items), nseeds, totals["permuted"]))
 
     # ---- generated programs
-    nprog = ctx.n(60, 800)
-    nseeds = ctx.n(6, 24)
+    nprog = ctx.n(40, 800)
+    nseeds = ctx.n(5, 24)
     items, labels = [], []
     for i in range(nprog):
         lines, feats = cs.gen_program(ctx.rng, malformed=(i % 5 == 4))
@@ -199,6 +316,7 @@ def run(ctx):
     ctx.cov["generated_programs"] = nprog
     process(ctx, items, labels, "generated", totals, shrink_budget=ctx.n(1, 2))
 
+    run_model_tie(ctx)
     ctx.cov["schedule_exploration"] = {"batches_seen": totals["batches"], "all_e_batches": totals["all_e"],
                                        "batches_actually_permuted": totals["permuted"],
                                        "runs_with_a_nontrivial_schedule": totals["nontrivial_runs"]}
